@@ -156,6 +156,8 @@ pub enum TokFault {
     TextInsert { at: usize, ch: char },
     /// text-level: replace a character
     TextReplace { at: usize, ch: char },
+    /// exchange the `n` payload bytes at `a` with those at `b` (non-overlapping)
+    SwapPayloadRanges { a: usize, b: usize, n: usize },
     /// Ed25519 tokens: add `k` times the group order L to the scalar half S of the signature (another
     /// byte string for the same residue; RFC 8032 demands S < L). P-384 (v3): add the group order n to
     /// the half that still fits in 48 bytes afterwards, if any.
@@ -204,6 +206,17 @@ pub fn apply_tok_fault(d: &mut Delivered, f: &TokFault) -> bool {
             if let Some(mut p) = parts {
                 if *byte < p.payload.len() {
                     p.payload[*byte] ^= 1 << (bit & 7);
+                    d.text = p.render();
+                    changed = true;
+                }
+            }
+        }
+        TokFault::SwapPayloadRanges { a, b, n } => {
+            if let Some(mut p) = parts {
+                if *n >= 1 && a + n <= *b && b + n <= p.payload.len() && p.payload[*a..a + n] != p.payload[*b..b + n] {
+                    for i in 0..*n {
+                        p.payload.swap(a + i, b + i);
+                    }
                     d.text = p.render();
                     changed = true;
                 }
@@ -608,6 +621,7 @@ impl TokFault {
             TokFault::TextTrailingBits { .. } => "text-trailing-bits",
             TokFault::TextInsert { .. } => "text-insert",
             TokFault::SigAddOrder { .. } => "sig-add-order",
+            TokFault::SwapPayloadRanges { .. } => "swap-payload-ranges",
             TokFault::TextReplace { .. } => "text-replace",
             TokFault::TextOverwriteBytes { .. } => "text-overwrite-bytes",
             TokFault::TextReplaceBack { .. } => "text-replace-tail",
@@ -641,12 +655,15 @@ pub enum BlobFault {
     TextStdAlphabet,
     TextReplace { at: usize, ch: char },
     TextTrailingBits { bits: u8 },
+    /// exchange the `n` bytes at `a` with the `n` bytes at `b` (non-overlapping)
+    SwapRanges { a: usize, b: usize, n: usize },
 }
 
 impl BlobFault {
     pub fn kind(&self) -> &'static str {
         match self {
             BlobFault::Flip { .. } => "flip",
+            BlobFault::SwapRanges { .. } => "swap-ranges",
             BlobFault::TruncBack { .. } => "trunc-back",
             BlobFault::TruncFront { .. } => "trunc-front",
             BlobFault::TruncMid { .. } => "trunc-mid",
@@ -671,6 +688,18 @@ pub fn apply_blob_fault(text: &mut String, f: &BlobFault) -> bool {
             if let Some((h, mut d)) = parts {
                 if *byte < d.len() {
                     d[*byte] ^= 1 << (bit & 7);
+                    *text = join_paserk(&h, &d);
+                    return true;
+                }
+            }
+            false
+        }
+        BlobFault::SwapRanges { a, b, n } => {
+            if let Some((h, mut d)) = parts {
+                if *n >= 1 && a + n <= *b && b + n <= d.len() && d[*a..a + n] != d[*b..b + n] {
+                    for i in 0..*n {
+                        d.swap(a + i, b + i);
+                    }
                     *text = join_paserk(&h, &d);
                     return true;
                 }
